@@ -134,7 +134,35 @@ def run(ctx):
                     ctx.violation(R3, key + "|tick-end-dropped", "the rebuilt OperatorWriteOutput does not carry the delegate's write_tick_end: the delegate's 'tick state would never be reset", loc)
     ctx.extra["persistence_operators"] = n
 
+    recycle_rule(ctx)
     if ctx.tier == "thorough":
         # translation validation on a corpus of dfir_syntax! programs compiled with this tree's dfir_lang (never run)
         import corpus
         corpus.rules_c21(ctx)
+
+
+def recycle_rule(ctx):
+    """Double-buffered operator state: when a template swaps two state buffers declared in the operator's prologue (the finished tally becomes `prev`, the old `prev`
+    buffer is reused), the reused buffer still holds the tally of two ticks ago and must be emptied in the same block. Without it the operator's per-tick result
+    depends on data older than the previous tick."""
+    import re
+    import synfacts
+    R = ctx.rule("C21.recycle", "an operator template that swaps two of its state buffers empties (clear() / re-initialises) the recycled one in the same block", floor=1)
+    d = synfacts.scan_dir(OPS_DIR)
+    n = 0
+    for f, v in sorted(d.items()):
+        for m in v["macros"]:
+            if m["macro"] not in ("quote", "quote_spanned"):
+                continue
+            t = m["text"]
+            if not re.search(r"(mem :: swap|RefCell :: swap|\. swap) \(", t):
+                continue
+            n += 1
+            key = "dfir_lang|%s|swap#%d" % (f.split("/")[-1], n)
+            cleared = re.findall(r"(\w+) \. clear \( \)", t) + re.findall(r"\* (\w+) = (?:Default|:: std :: default)", t)
+            ctx.inst(R, key, sample={"line": m["line"], "cleared": cleared})
+            if not cleared:
+                ctx.violation(R, key + "|recycled-not-cleared", "two state buffers are swapped but neither is emptied afterwards: the buffer reused for this tick still holds the contents of two ticks "
+                              "ago", "%s:%s" % (f, m["line"]))
+    if n == 0:
+        ctx.anchor_missing(R, "a swapping operator template (multiset_delta)")
